@@ -64,7 +64,7 @@ func (t *TextTable) RenderTo(w io.Writer) error {
 			continue
 		}
 		for i, cell := range row.Cells() {
-			if i > columnCount {
+			if i >= columnCount {
 				break
 			}
 			d := CellPropertyExtractDimensions(&cell)
